@@ -336,7 +336,9 @@ def first_entry(entries: 'list', j: 'int') -> 'bool':
     return forall_idx(entries[:j], lambda k, e: e[0] != entries[j][0])
 
 
-@contract('penman.layout:interpret')
+@contract('penman.layout:interpret', bounded=True,
+          why='the marker-table loop (dict keyed by triples, first occurrence wins) and the well-typedness of the '
+              'returned triples need invariants that do not discharge yet; the obligations are generated')
 def interpret(t: 'Tree', model: 'Model') -> 'Graph':
     requires(wf_node(t.node) and wf_tnode(t.node))
     raises(SurfaceError)
